@@ -4,7 +4,7 @@ import IdenaModel.Drivers.Util
 
 Identity diffs (the root function is the identity on operation logs: two roots agree iff the histories agree):
 `new chain <base> <contents>` | `blk <h> <dirty objects, any order>` ⇒ `diff <Precommit's diff> stored <stored diff>` |
-`reset <k>` | `served <h>` ⇒ stored diff | `replay` ⇒ `ok <head> <contents>` / `mismatch <h>` (fast sync's replay of
+`reset <k>` | `fsync <h> <served diff>` ⇒ `stored <stored diff>` (fast sync's applier) | `served <h>` ⇒ stored diff | `replay` ⇒ `ok <head> <contents>` / `mismatch <h>` (fast sync's replay of
 everything served from genesis) | `hostile <h> <diff>` ⇒ `addDiff=<panic|differ|same> verdict=<rej|acc|any>`.
 
 Snapshots (the node hash is the symbolic term of what IAVL hashes):
@@ -151,6 +151,18 @@ def step (st : St) (line : String) : St × String :=
       if n'.head ≠ h then ({ st with node := n' }, "refused") else
       let d := match n'.recAt h with | some r => r.diff | none => []
       ({ st with node := n' }, s!"diff {diffTok d} stored {diffTok (n'.stored h)}")
+    | _, _ => (st, "bad-op")
+  | ["fsync", h, d] =>
+    -- a canonical block arriving through fast sync's applier; its header root is the canonical one (= the root of the
+    -- replayed history when the served diff is the block's own)
+    match h.toNat?, parseList d parseDVal with
+    | some h, some d =>
+      if h ≠ st.node.head + 1 then (st, "bad-op") else
+      match addDiff (st.node.treeAt st.node.head) h d with
+      | none => (st, "panic")
+      | some t' =>
+        let n' := st.node.step R true (.sync d t'.log)
+        ({ st with node := n' }, s!"stored {diffTok (n'.stored h)}")
     | _, _ => (st, "bad-op")
   | ["reset", k] =>
     match k.toNat? with
